@@ -1113,7 +1113,58 @@ func (s *TxStore) Rollback(tx mwdb.DBTransaction, height uint64) error {
 	return s.utxoStore.UpdateMinedBalances(tx, allMined)
 }
 
-func (s *TxStore) removableTxForRemoveWallet(msgTx *wire.MsgTx, scriptHashSet map[string]struct{}) (bool, error) {
+// spendsCreditOfOtherWallet reports whether an input of msgTx spends an output that is
+// recorded as a (mined or unmined) credit of a wallet other than the one being removed.
+func (s *TxStore) spendsCreditOfOtherWallet(tx mwdb.DBTransaction, msgTx *wire.MsgTx,
+	scriptHashSet map[string]struct{}) (bool, error) {
+	if blockchain.IsCoinBaseTx(msgTx) {
+		return false, nil
+	}
+	nsCredits := tx.FetchBucket(s.bucketMeta.nsCredits)
+	nsUnminedCredits := tx.FetchBucket(s.bucketMeta.nsUnminedCredits)
+	foreign := func(credValue []byte) (bool, error) {
+		_, scriptHash, err := fetchRawCreditMaturityScriptHash(credValue)
+		if err != nil {
+			return false, err
+		}
+		_, ok := scriptHashSet[string(scriptHash)]
+		return !ok, nil
+	}
+	for _, txIn := range msgTx.TxIn {
+		prevOut := &txIn.PreviousOutPoint
+		entries, err := getCreditsByTxHash(nsCredits, &prevOut.Hash)
+		if err != nil {
+			return false, err
+		}
+		for _, entry := range entries {
+			cred := credit{block: &BlockMeta{}}
+			if err := readRawCreditKey(entry.Key, &cred); err != nil {
+				return false, err
+			}
+			if cred.outPoint.Index != prevOut.Index {
+				continue
+			}
+			if yes, err := foreign(entry.Value); err != nil || yes {
+				return yes, err
+			}
+		}
+		v, err := existsRawUnminedCredit(nsUnminedCredits, canonicalOutPoint(&prevOut.Hash, prevOut.Index))
+		if err != nil {
+			return false, err
+		}
+		if v != nil {
+			if yes, err := foreign(v); err != nil || yes {
+				return yes, err
+			}
+		}
+	}
+	return false, nil
+}
+
+// removableTxForRemoveWallet: the record of a transaction may go with the removed wallet only
+// if no other wallet is paid by it or has a coin spent by it (Rollback walks these records to
+// undo the other wallet's debits and credits).
+func (s *TxStore) removableTxForRemoveWallet(tx mwdb.DBTransaction, msgTx *wire.MsgTx, scriptHashSet map[string]struct{}) (bool, error) {
 
 	for i, txout := range msgTx.TxOut {
 		ps, err := utils.ParsePkScript(txout.PkScript, s.chainParams)
@@ -1137,7 +1188,11 @@ func (s *TxStore) removableTxForRemoveWallet(msgTx *wire.MsgTx, scriptHashSet ma
 			return false, nil
 		}
 	}
-	return true, nil
+	spends, err := s.spendsCreditOfOtherWallet(tx, msgTx, scriptHashSet)
+	if err != nil {
+		return false, err
+	}
+	return !spends, nil
 }
 
 func (s *TxStore) checkBlockRecordAfterTxRemoved(nsBlocks mwdb.Bucket, blkDeleted map[uint64]map[wire.Hash]struct{}) error {
@@ -1226,7 +1281,7 @@ func (s *TxStore) RemoveRelevantTx(tx mwdb.DBTransaction, addrmgr *keystore.Addr
 		if err != nil {
 			return nil, false, err
 		}
-		removable, err := s.removableTxForRemoveWallet(&rec.MsgTx, scriptHashSet)
+		removable, err := s.removableTxForRemoveWallet(tx, &rec.MsgTx, scriptHashSet)
 		if err != nil {
 			return nil, false, err
 		}
@@ -1274,7 +1329,7 @@ func (s *TxStore) RemoveRelevantTx(tx mwdb.DBTransaction, addrmgr *keystore.Addr
 		if err != nil {
 			return nil, false, err
 		}
-		removable, err := s.removableTxForRemoveWallet(msgtx, scriptHashSet)
+		removable, err := s.removableTxForRemoveWallet(tx, msgtx, scriptHashSet)
 		if err != nil {
 			return nil, false, err
 		}
